@@ -12,12 +12,10 @@
 package main
 
 import (
-	"context"
 	"fmt"
 	"math/big"
 	"strings"
 
-	"gitlab.com/aquachain/aquachain/aquadb"
 	"gitlab.com/aquachain/aquachain/common"
 	"gitlab.com/aquachain/aquachain/core"
 	"gitlab.com/aquachain/aquachain/core/types"
@@ -34,6 +32,33 @@ var probeAddrs = []common.Address{
 // t := cd[0]; SSTORE(0, EXTCODESIZE(t)); SSTORE(1, BALANCE(t)); EXTCODECOPY(t,0,0,32); SSTORE(2, MLOAD(0));
 // CALLDATACOPY(32,32,64); SSTORE(3, CALL(gas,t,0,32,64,0,0)); LOG1(0,32,t)
 var probeCode = hx("600035 803b600055 8031600155 602060006000833c 600051600255 604060206020 37 60006000604060206000855af1 600355 60206000a1")
+
+var ctxAddr = common.HexToAddress("0x00000000000000000000000000000000000c0031")
+
+// ctxCode: SSTORE(0x10+i, BLOCKHASH(NUMBER-k)) for k = 1..12, 256, 257; BLOCKHASH(NUMBER); BLOCKHASH(NUMBER+1);
+// SSTORE(0x30.., COINBASE, TIMESTAMP, NUMBER, DIFFICULTY, GASLIMIT); SSTORE(0x100+cd[0], BLOCKHASH(NUMBER-cd[0]));
+// LOG1(0,0,BLOCKHASH(NUMBER-1))
+func ctxCode() []byte {
+	var c []byte
+	slot := byte(0x10)
+	for k := 1; k <= 12; k++ {
+		c = append(c, 0x60, byte(k), 0x43, 0x03, 0x40, 0x60, slot, 0x55)
+		slot++
+	}
+	for _, k := range []int{256, 257} {
+		c = append(c, 0x61, byte(k>>8), byte(k), 0x43, 0x03, 0x40, 0x60, slot, 0x55)
+		slot++
+	}
+	c = append(c, 0x43, 0x40, 0x60, slot, 0x55)
+	slot++
+	c = append(c, 0x60, 0x01, 0x43, 0x01, 0x40, 0x60, slot, 0x55)
+	for i, op := range []byte{0x41, 0x42, 0x43, 0x44, 0x45} {
+		c = append(c, op, 0x60, byte(0x30+i), 0x55)
+	}
+	c = append(c, 0x60, 0x00, 0x35, 0x43, 0x03, 0x40, 0x60, 0x00, 0x35, 0x61, 0x01, 0x00, 0x01, 0x55)
+	c = append(c, 0x60, 0x01, 0x43, 0x03, 0x40, 0x60, 0x00, 0x60, 0x00, 0xa1)
+	return c
+}
 
 type twinT struct {
 	ch     *chainT // spec, genesis spec, generation database
@@ -63,11 +88,12 @@ func (tw *twinT) replay(extra map[string]interface{}) map[string]interface{} {
 func buildTwin(c *vh.Ctx, spec cfgSpec) *twinT {
 	r := c.Rng
 	ch := &chainT{spec: spec, gspec: genesisSpec(spec.cfg)}
-	ch.gendb = aquadb.NewMemDatabase()
-	ch.genesis = ch.gspec.MustCommit(ch.gendb)
+	pn := newNode(c, ch, &core.CacheConfig{Disabled: true})
+	defer func() { pn.bc.Stop() }()
+	ch.genesis = pn.bc.Genesis()
 	tw := &twinT{ch: ch}
 	g := &txgen{r: r, cfg: spec.cfg}
-	randomTxs := func(b *core.BlockGen, max int, nonces map[int]uint64) {
+	randomTxs := func(b *blockGen, max int, nonces map[int]uint64) {
 		for j := r.Intn(max + 1); j > 0; j-- {
 			from := r.Intn(4)
 			if _, ok := nonces[from]; !ok {
@@ -79,11 +105,16 @@ func buildTwin(c *vh.Ctx, spec cfgSpec) *twinT {
 		}
 	}
 	np := 2 + r.Intn(5)
-	tw.prefix, _ = core.GenerateChain(context.Background(), spec.cfg, ch.genesis, newEngine(), ch.gendb, np, func(_ int, b *core.BlockGen) {
-		b.SetCoinbase(minerA)
-		randomTxs(b, 3, map[int]uint64{})
-	})
-	tip := tw.prefix[len(tw.prefix)-1]
+	parent := ch.genesis
+	for i := 0; i < np; i++ {
+		blk, _ := extend(pn, parent, func(b *blockGen) {
+			b.SetCoinbase(minerA)
+			randomTxs(b, 3, map[int]uint64{})
+		})
+		tw.prefix = append(tw.prefix, blk)
+		parent = blk
+	}
+	tip := parent
 	la := 3 + r.Intn(2)
 	lens := [2]int{la, la + 1}
 	if r.Bool() {
@@ -91,59 +122,83 @@ func buildTwin(c *vh.Ctx, spec cfgSpec) *twinT {
 	}
 	for f := 0; f < 2; f++ {
 		f := f
-		tw.fork[f], _ = core.GenerateChain(context.Background(), spec.cfg, tip, newEngine(), ch.gendb, lens[f], func(j int, b *core.BlockGen) {
-			b.SetCoinbase([]common.Address{minerA, minerB}[f])
-			b.SetExtra([]byte{'f', byte('A' + f)})
-			nonces := map[int]uint64{}
-			send := func(from int, tx *types.Transaction) {
-				stx, err := types.SignTx(tx, types.HomesteadSigner{}, keys[from])
-				if err != nil {
-					panic(err)
-				}
-				b.AddTx(stx)
-			}
-			nonce := func(from int) uint64 {
-				if _, ok := nonces[from]; !ok {
-					nonces[from] = b.TxNonce(addrs[from])
-				}
-				n := nonces[from]
-				nonces[from]++
-				return n
-			}
-			price := big.NewInt(2000000000)
-			switch {
-			case j == 0:
-				// same deployer, same nonce => same address; different init code => code of different length
-				n0 := nonce(0)
-				tw.x = crypto.CreateAddress(addrs[0], n0)
-				send(0, types.NewContractCreation(n0, big.NewInt(int64(3+6*f)), 400000, price, initReturning([][]byte{storeCode, revlogCode}[f])))
-				n1 := nonce(1)
-				tw.y = crypto.CreateAddress(addrs[1], n1)
-				send(1, types.NewContractCreation(n1, big.NewInt(0), 400000, price, [][]byte{initCtor(0x2a, 0x77, sdCode), initCtor(0x99, 0x55, storeCode[:40])}[f]))
-				// same slots of a shared contract, different values (one fork clears a slot)
-				d := append(append(append(append(append(word(1), word(uint64(100+f))...), word(2)...), word(uint64(222*f))...), word(5)...), word(uint64(50+f))...)
-				send(2, types.NewTransaction(nonce(2), storeAddr, big.NewInt(0), 200000, price, d))
-				// same fresh account, different balance
-				send(2, types.NewTransaction(nonce(2), freshPool[0], big.NewInt(int64(5+2*f)), 21000, price, nil))
-				// a selfdestruct of a different shared contract on each fork
-				send(3, types.NewTransaction(nonce(3), sdAddrs[f], big.NewInt(0), 100000, price, common.LeftPadBytes(freshPool[1].Bytes(), 32)))
-			default:
-				targets := []common.Address{tw.x, tw.x, tw.y, freshPool[0], freshPool[1], sdAddrs[0], sdAddrs[1], storeAddr, emptyAddr}
-				for q := 2 + r.Intn(3); q > 0; q-- {
-					from := r.Intn(4)
-					t := targets[r.Intn(len(targets))]
-					if q == 1 {
-						t = tw.x
+		fnode := newNode(c, ch, &core.CacheConfig{Disabled: true}) // holds prefix + this fork only
+		if err := fnode.insert(tw.prefix); err != nil {
+			panic(fmt.Sprintf("fork builder node: %v", err))
+		}
+		fparent := tip
+		for j := 0; j < lens[f]; j++ {
+			j := j
+			blk, _ := extend(fnode, fparent, func(b *blockGen) {
+				b.SetCoinbase([]common.Address{minerA, minerB}[f])
+				b.SetExtra([]byte{'f', byte('A' + f)})
+				b.OffsetTime(int64(1 + 3*f + r.Intn(3))) // TIMESTAMP and DIFFICULTY differ between the forks
+				nonces := map[int]uint64{}
+				send := func(from int, tx *types.Transaction) {
+					stx, err := types.SignTx(tx, types.HomesteadSigner{}, keys[from])
+					if err != nil {
+						panic(err)
 					}
-					data := append(common.LeftPadBytes(t.Bytes(), 32), append(word(uint64(1+r.Intn(6))), word(uint64(r.Intn(200)))...)...)
-					send(from, types.NewTransaction(nonce(from), probeAddrs[r.Intn(2)], big.NewInt(0), 500000, price, data))
+					b.AddTx(stx)
 				}
-				if j == 2 { // on A this writes X's storage, on B it reverts or logs; Y (probed above) destroys itself on fork A only
-					send(0, types.NewTransaction(nonce(0), tw.x, big.NewInt(1), 200000, price, common.LeftPadBytes(freshPool[2].Bytes(), 32)))
+				nonce := func(from int) uint64 {
+					if _, ok := nonces[from]; !ok {
+						nonces[from] = b.TxNonce(addrs[from])
+					}
+					n := nonces[from]
+					nonces[from]++
+					return n
 				}
-				randomTxs(b, 2, nonces)
-			}
-		})
+				price := big.NewInt(2000000000)
+				// block context as seen from this fork: BLOCKHASH reaching back across the fork point
+				// (and out of range), COINBASE, TIMESTAMP, NUMBER, DIFFICULTY, GASLIMIT — stored
+				ctx := func() {
+					from := r.Intn(4)
+					depth := uint64(r.Intn(np + lens[f] + 2))
+					send(from, types.NewTransaction(nonce(from), ctxAddr, big.NewInt(0), 900000, price, word(depth)))
+				}
+				switch {
+				case j == 0:
+					// same deployer, same nonce => same address; different init code => code of different length
+					n0 := nonce(0)
+					tw.x = crypto.CreateAddress(addrs[0], n0)
+					send(0, types.NewContractCreation(n0, big.NewInt(int64(3+6*f)), 400000, price, initReturning([][]byte{storeCode, revlogCode}[f])))
+					n1 := nonce(1)
+					tw.y = crypto.CreateAddress(addrs[1], n1)
+					send(1, types.NewContractCreation(n1, big.NewInt(0), 400000, price, [][]byte{initCtor(0x2a, 0x77, sdCode), initCtor(0x99, 0x55, storeCode[:40])}[f]))
+					// same slots of a shared contract, different values (one fork clears a slot)
+					d := append(append(append(append(append(word(1), word(uint64(100+f))...), word(2)...), word(uint64(222*f))...), word(5)...), word(uint64(50+f))...)
+					send(2, types.NewTransaction(nonce(2), storeAddr, big.NewInt(0), 200000, price, d))
+					// same fresh account, different balance
+					send(2, types.NewTransaction(nonce(2), freshPool[0], big.NewInt(int64(5+2*f)), 21000, price, nil))
+					// a selfdestruct of a different shared contract on each fork
+					send(3, types.NewTransaction(nonce(3), sdAddrs[f], big.NewInt(0), 100000, price, common.LeftPadBytes(freshPool[1].Bytes(), 32)))
+					ctx()
+				default:
+					ctx()
+					targets := []common.Address{tw.x, tw.x, tw.y, freshPool[0], freshPool[1], sdAddrs[0], sdAddrs[1], storeAddr, emptyAddr}
+					for q := 2 + r.Intn(3); q > 0; q-- {
+						from := r.Intn(4)
+						t := targets[r.Intn(len(targets))]
+						if q == 1 {
+							t = tw.x
+						}
+						data := append(common.LeftPadBytes(t.Bytes(), 32), append(word(uint64(1+r.Intn(6))), word(uint64(r.Intn(200)))...)...)
+						send(from, types.NewTransaction(nonce(from), probeAddrs[r.Intn(2)], big.NewInt(0), 500000, price, data))
+					}
+					if j == 2 { // on A this writes X's storage, on B it reverts or logs; Y (probed above) destroys itself on fork A only
+						send(0, types.NewTransaction(nonce(0), tw.x, big.NewInt(1), 200000, price, common.LeftPadBytes(freshPool[2].Bytes(), 32)))
+					}
+					if r.Bool() {
+						ctx()
+					}
+					randomTxs(b, 2, nonces)
+				}
+			})
+			tw.fork[f] = append(tw.fork[f], blk)
+			fparent = blk
+		}
+		fnode.bc.Stop()
 	}
 	return tw
 }
@@ -208,6 +263,13 @@ func forkHistories() []forkHistory {
 					return err
 				}
 				n.reopen(c)
+				return perBlock(n, tw.fork[1-first])
+			}},
+			forkHistory{nm + "/restart-between-forks/pruning-default", nil, func(c *vh.Ctx, n *node, tw *twinT) error {
+				if err := batch(n, tw.fork[first]); err != nil {
+					return err
+				}
+				n.reopen(c) // only the newest states survive: the other fork arrives on pruned ancestors
 				return perBlock(n, tw.fork[1-first])
 			}},
 			forkHistory{nm + "/failed-block-of-other-fork-first/archive", archive(), func(c *vh.Ctx, n *node, tw *twinT) error {
